@@ -293,6 +293,8 @@ class Model:
         return r
 
     def _boolish(self, t: T.Term) -> bool:
+        if isinstance(t, tuple) and t and t[0] == "ccol" and len(t) == 3 and isinstance(t[2], tuple) and t[2]:
+            return all(self._boolish(x) for x in t[2])           # a concatenated column whose every part is boolean
         return isinstance(t, tuple) and t and (t[0] in ("cmp", "eq", "ne", "and", "or", "not", "in", "cmpx", "isnull", "strmatch", "truthy", "notnull", "duplicated")
                                                or (t[0] == "const" and isinstance(t[1], bool)))
 
